@@ -273,6 +273,10 @@ pub struct Mix {
     pub error_sixteenths: usize,
     pub max_steps: usize,
     pub big_start: bool,
+    /// start from a COMPRESSED packet whose pointer-free size is just below this limit (8192 or 65535)
+    pub near_limit: usize,
+    /// which property's run this is (read-back findings are attributed to it)
+    pub want: Prop,
 }
 
 pub struct Outcome {
@@ -292,6 +296,10 @@ struct Run<'r> {
     sigs: Vec<String>,
     steps: usize,
     failed_ops: usize,
+}
+
+fn text_label_for_limit(rng: &mut Rng, n: usize) -> Vec<u8> {
+    (0..n).map(|_| *rng.pick(b"abcdefghij")).collect()
 }
 
 fn legal_wire_name(rng: &mut Rng, target_len: Option<usize>) -> Name {
@@ -396,7 +404,33 @@ fn gtype(t: u16) -> Type {
 pub fn run_history(rng: &mut Rng, mix: Mix) -> Outcome {
     // ---- starting point
     let start_kind = rng.below(10);
-    let (mut pp, start_bytes, start_desc): (ParsedPacket, Vec<u8>, String) = if mix.big_start {
+    let (mut pp, start_bytes, start_desc): (ParsedPacket, Vec<u8>, String) = if mix.near_limit > 0 {
+        // many records named through pointers: small on the wire, just below the limit once decompressed
+        let mut m = Msg { id: rng.u16(), flags: 0x8180, ..Default::default() };
+        let qn = Name(vec![text_label_for_limit(rng, 20), b"example".to_vec(), b"com".to_vec()]);
+        m.question.push(Question { name: qn.clone(), qtype: 1, qclass: 1 });
+        let slack = rng.range(0, 300);
+        let goal = mix.near_limit - slack;
+        let mut i = 0u32;
+        loop {
+            let r = if mix.near_limit > 10000 && i % 4 != 0 {
+                Record { name: qn.clone(), rtype: T_TXT, class: 1, ttl: i, rdata: RData::Opaque(vec![b't'; 600]) }
+            } else {
+                Record { name: qn.clone(), rtype: T_A, class: 1, ttl: i, rdata: RData::A([10, 0, (i >> 8) as u8, i as u8]) }
+            };
+            if m.encode_literal().len() + r.wire_literal().len() > goal {
+                break;
+            }
+            m.sec[(i % 3) as usize].push(r);
+            i += 1;
+        }
+        let lit = m.encode_literal();
+        let b = Compress::compress(&lit).unwrap_or(lit);
+        match DNSSector::new(b.clone()).unwrap().parse() {
+            Ok(pp) => (pp, b, format!("near-limit({})", mix.near_limit)),
+            Err(_) => return Outcome { steps: 0, findings: vec![], log: vec!["start rejected".into()], start: b },
+        }
+    } else if mix.big_start {
         // an accepted packet larger than 8192 bytes, as arrives over TCP
         let mut m = Msg { id: rng.u16(), flags: 0x8180, ..Default::default() };
         m.question.push(Question { name: Name::from_labels(&[b"big", b"example"]), qtype: 16, qclass: 1 });
@@ -670,11 +704,19 @@ pub fn run_history(rng: &mut Rng, mix: Mix) -> Outcome {
                 run.monitor(&pp, "session end");
             }
         }
-        // the question getters, through &mut
+        // the question getters, through &mut; and a complete read-back through the iterators (EDNS options
+        // included): what the API hands out must be what the bytes hold
         if run.findings.is_empty() {
             if let Ok(d) = check_view(&pp) {
                 if let Err(fd) = check_question_getters(&mut pp, &d, step) {
                     run.findings.push(fd);
+                } else if strict_state(pp.packet()) && (mix.want == Prop::C09 || run.rng.chance(1, 3)) {
+                    let b = pp.packet().to_vec();
+                    if let Err(e) = super::c03::read_back(&mut pp, &d, &b) {
+                        let prop = if mix.want == Prop::C09 { Prop::C09 } else { Prop::C08 };
+                        let cls: String = e.split(':').next().unwrap_or("").chars().filter(|c| !c.is_ascii_digit()).collect();
+                        run.findings.push(f(prop, format!("read-back|{}", cls), format!("after step {}: the iterators do not hand out what the bytes hold: {}", step, e)));
+                    }
                 }
             }
         }
